@@ -2,87 +2,8 @@ import IoraModel.Lemmas.TpWorkers
 /-! # C09 — the worker-map invariants hold in every reachable state -/
 namespace Iora.ThreadPool
 
-theorem trans_isMain (cfg : Cfg) (sh : Shared) (n t : Nat) (th : Thread) (alt : Nat) :
-    isMain (trans cfg sh n t th alt).2.1 = isMain th := by
-  cases th <;> rfl
-
-theorem calm_not_detach (pc : MPc) (w : Tid) (h : calmPc pc = true) : pc ≠ .jDetach w := by
-  intro e; rw [e] at h; simp [calmPc] at h
-
-theorem transM_noDetach (cfg : Cfg) (hdet : cfg.detached = false) (sh : Shared) (n t : Nat) (pc : MPc) (r : MRegs) (alt : Nat) (w : Tid) :
-    (transM cfg sh n t pc r alt).2.1.1 ≠ .jDetach w := by
-  cases pc with
-  | inCall c =>
-    simp only [transM]
-    cases (callStep cfg sh n t c).2.1 <;> simp
-  | jU w' => simp [transM, hdet]
-  | mYield => simp only [transM]; exact calm_not_detach _ w (stepMYield_calm sh r)
-  | dInfU => simp only [transM]; exact calm_not_detach _ w (pollHead_calm _ _ _)
-  | pollZ k => simp only [transM]; exact calm_not_detach _ w (pollHead_calm _ _ _)
-  | p2Grace => simp only [transM]; exact calm_not_detach _ w (pollHead_calm _ _ _)
-  | p5U => simp only [transM]; exact calm_not_detach _ w (dtorReturn_calm { sh with owner := none } r)
-  | pollU k =>
-    simp only [transM]; split
-    · exact calm_not_detach _ w (pollExit_calm _ _ _ _)
-    · simp
-  | finU k =>
-    cases k <;> simp only [transM]
-    · exact calm_not_detach _ w (drainReturn_calm { sh with owner := none } r false)
-    all_goals simp
-  | sFlagUA =>
-    simp only [transM]; split
-    · exact calm_not_detach _ w (dtorReturn_calm { sh with owner := none } r)
-    · exact calm_not_detach _ w (shutdownReturn_calm { sh with owner := none } r)
-  | sBcast =>
-    simp only [transM]; split
-    · simp
-    · exact calm_not_detach _ w (pollHead_calm _ _ _)
-  | sChkU =>
-    simp only [transM]; split
-    · exact calm_not_detach _ w (pollHead_calm _ _ _)
-    · simp
-  | jUnone =>
-    simp only [transM]; split
-    · simp
-    · exact calm_not_detach _ w (shutdownReturn_calm { sh with owner := none } r)
-  | p2Z =>
-    simp only [transM]; split
-    · simp
-    · split
-      · simp
-      · exact calm_not_detach _ w (pollHead_calm _ _ _)
-  | _ => simp only [transM] <;> (repeat' split) <;> simp
-
-theorem trans_noDetach (cfg : Cfg) (hdet : cfg.detached = false) (sh : Shared) (n t : Nat) (th : Thread) (alt : Nat) (w : Tid) (r : MRegs) :
-    (trans cfg sh n t th alt).2.1 ≠ .main (.jDetach w) r := by
-  cases th with
-  | main pc r0 =>
-    simp only [trans]
-    intro e
-    injection e with e1 _
-    exact transM_noDetach cfg hdet sh n t pc r0 alt w e1
-  | sub x => simp [trans]
-  | worker x => simp [trans]
-
-theorem enabled_join (s : St) (w : Tid) (r : MRegs) (h : enabled s (.main (.jJoin w) r) = true) :
-    ∃ tj, s.thr[w]? = some tj ∧ isFinished tj = true := by
-  simp only [enabled] at h
-  cases hx : s.thr[w]? with
-  | none => rw [hx] at h; simp at h
-  | some tj => rw [hx] at h; exact ⟨tj, rfl, h⟩
-
 theorem winv_init (cfg : Cfg) : WInv (init cfg) := by
-  refine ⟨?_, ?_, ?_, ?_, ?_, ?_, ?_⟩
-  · intro t th h _
-    simp [init] at h
-    cases t with
-    | zero => rfl
-    | succ k => simp at h
-  · intro t w r h
-    simp [init] at h
-    cases t with
-    | zero => simp at h
-    | succ k => simp at h
+  refine ⟨?_, ?_, ?_, ?_, ?_⟩
   · intro w th h hw
     simp [init] at h
     cases w with
@@ -93,27 +14,37 @@ theorem winv_init (cfg : Cfg) : WInv (init cfg) := by
   · intro w hm; simp [init] at hm
   · simp [init]
 
-/-- mode ≠ DETACHED and `maxSize ≥ 1`: the worker-map invariants are preserved by every step -/
-theorem winv_step (cfg : Cfg) (hdet : cfg.detached = false) (hmax : 1 ≤ cfg.maxSize) (s : St) (c : Choice)
-    (hmx : MutexOk s) (h : WInv s) : WInv (step cfg s c) := by
+/-- from the controller invariants: the acting thread is the only one with a join target -/
+theorem target_unique (s : St) (hc : CInv s) (t : Nat) (th : Thread) (hget : s.thr[t]? = some th)
+    (j : Nat) (x : Thread) (w : Tid) (hx : s.thr[j]? = some x) (htg : targetOf x = some w) (hth : targetOf th ≠ none) : j = t := by
+  have own_of_target : ∀ (y : Thread), targetOf y ≠ none → ∃ pc r, y = .main pc r ∧ ownsPc pc = true := by
+    intro y hy
+    cases y with
+    | main pc r => cases pc <;> simp [targetOf] at hy <;> exact ⟨_, _, rfl, by simp [ownsPc, seqPc]⟩
+    | sub z => simp [targetOf] at hy
+    | worker z => simp [targetOf] at hy
+  obtain ⟨pc, r, e, o⟩ := own_of_target x (by rw [htg]; simp)
+  obtain ⟨pc', r', e', o'⟩ := own_of_target th hth
+  rw [e] at hx; rw [e'] at hget
+  exact hc.oneOwner j t pc pc' r r' hx hget o o'
+
+theorem winv_step (cfg : Cfg) (s : St) (c : Choice)
+    (hmx : MutexOk s) (hc : CInv s) (h : WInv s) : WInv (step cfg s c) := by
   apply step_cases cfg s c WInv
   · exact h
-  · -- wake-up of a sleeper: a quiet step
-    intro t th b hget ha
+  · intro t th b hget ha
     have hth : th = .worker .asleep := by
       cases th with
       | worker w => cases w <;> simp [isAsleep] at ha; rfl
       | main pc r => simp [isAsleep] at ha
       | sub x => simp [isAsleep] at ha
-    have := winv_of_eff cfg hmax s s.sh t th (wake th b) .none 0 (s.thr.set t (wake th b)) h hmx hget
+    exact winv_of_eff cfg s s.sh t th (wake th b) .none 0 (s.thr.set t (wake th b)) h hmx hget
       (by rw [hth]; rfl) (by rw [hth]; intro e; simp [locksM, locksW] at e) (by rw [hth]; intro w r e; cases e)
-      (by simp) (by rw [hth]; intro w r e; simp [wake] at e)
+      (fun j x w hx htg hne => by rw [hth] at hne; simp [targetOf] at hne) (by rw [hth]; intro w r e; cases e) (by rw [hth]; rfl)
       (.quiet (SameQ.rfl' _) (fun nt e => by cases e) (by rw [hth]; rfl) (by rw [hth]; rfl) (by simp) (by simp) (by simp) (by simp)
         (by rw [hth]; intro e; simp [wake] at e))
       (threadsStep_of_set s.thr t th _ hget) (fun nt e => by cases e)
-    exact this
-  · -- re-acquisition after a wake-up
-    intro t th to late hget hw ho
+  · intro t th to late hget hw ho
     have hth : th = .worker (.woken to) := by
       cases th with
       | worker w => cases w <;> simp [wokenBy] at hw; rw [hw]
@@ -126,22 +57,17 @@ theorem winv_step (cfg : Cfg) (hdet : cfg.detached = false) (hmax : 1 ≤ cfg.ma
       · rw [hwr]
         exact .quiet hq (fun nt e => by cases e) (by rw [hth]; rfl) rfl (by rw [hth]; rfl) (by rw [hth]; rfl) (by rw [hth]; rfl)
           (by rw [hth]; rfl) (by intro e; cases e)
-    exact winv_of_eff cfg hmax s _ t th _ .none 0 _ h hmx hget (by rw [hth]; rfl)
-      (by rw [hth]; intro e; simp [locksM, locksW] at e) (by rw [hth]; intro w r e; cases e) (by rw [hth]; rfl)
-      (by intro w r e; cases e) heff (threadsStep_of_set s.thr t th _ hget) (fun nt e => by cases e)
-  · -- the pending operation of a runnable thread
-    intro t th alt l hget _ _ hf he hp
-    exact winv_of_eff cfg hmax s _ t th _ _ alt l h hmx hget hf (enabled_locks s th he)
-      (fun w r e => enabled_join s w r (by rw [← e]; exact he)) (trans_isMain cfg s.sh s.thr.length t th alt)
-      (fun w r e => trans_noDetach cfg hdet s.sh s.thr.length t th alt w r e)
+    exact winv_of_eff cfg s _ t th _ .none 0 _ h hmx hget (by rw [hth]; rfl)
+      (by rw [hth]; intro e; simp [locksM, locksW] at e) (by rw [hth]; intro w r e; cases e)
+      (fun j x w hx htg hne => by rw [hth] at hne; simp [targetOf] at hne) (by rw [hth]; intro w r e; cases e) (by rw [hth]; rfl)
+      heff (threadsStep_of_set s.thr t th _ hget) (fun nt e => by cases e)
+  · intro t th alt l hget _ _ hf he hp
+    exact winv_of_eff cfg s _ t th _ _ alt l h hmx hget hf (enabled_locks s th he)
+      (fun w r e => enabled_join s w r (by rw [← e]; exact he))
+      (fun j x w hx htg hne => target_unique s hc t th hget j x w hx htg hne)
+      (fun w r e => hc.noDetach t w r (by rw [← e]; exact hget))
+      (hc.nors t th hget)
       (trans_eff cfg s.sh s.thr.length t th alt) (threadsStep_of_run cfg s t th alt l hget hp)
       (fun nt e => trans_spawn cfg s.sh s.thr.length t th alt nt e)
-
-/-- both families together -/
-theorem winv_run (cfg : Cfg) (hdet : cfg.detached = false) (hmax : 1 ≤ cfg.maxSize) (sched : List Choice) :
-    MutexOk (run cfg sched) ∧ WInv (run cfg sched) := by
-  apply inv_run cfg (fun s => MutexOk s ∧ WInv s) ⟨mutexOk_init cfg, winv_init cfg⟩
-  intro s c ⟨h1, h2⟩
-  exact ⟨mutexOk_step cfg s c h1, winv_step cfg hdet hmax s c h1 h2⟩
 
 end Iora.ThreadPool
